@@ -103,7 +103,9 @@ impl<'a> SectionsBuilder<'a> {
 
         let id = self.builder.id();
         self.process_blocks(rest, blocks);
-        self.builder.set_id(id)
+        self.builder.set_id(id);
+        // whatever follows is a sibling of this section, also when nothing was added under it
+        self.builder.set_insert(false);
     }
 
     pub fn section_block(&mut self, block: &DocumentBlock) {
@@ -170,6 +172,9 @@ impl<'a> SectionsBuilder<'a> {
                 }
                 self.set_lines_range(para.line_range);
             }
+            // a list that has only empty items ("- " just typed) has nothing to hold
+            BulletList(list) if list.items.iter().all(|item| item.is_empty()) => {}
+            OrderedList(list) if list.items.iter().all(|item| item.is_empty()) => {}
             BulletList(list) => {
                 self.builder.bullet_list();
                 self.builder.set_insert(true);
